@@ -116,7 +116,11 @@ def monitor(p, c, K, res):
     asum = sum(abs(v) for v in coef)
     if eq:
         s = math.fsum(coef); want = 1.0 if p["trainer"] == "oneclass" else 0.0
-        if not abs(s - want) <= 64 * EPSM * (asum + 1) * math.sqrt(it + 1): bad.append(("equality", "sum of coefficients %r, equality constraint demands %r" % (s, want)))
+        # every SMO step rounds two coefficients (error <= eps * |alpha| <= eps * box size each): the drift of the sum is bounded
+        # LINEARLY in the number of steps; the warm start adds the rounding of the rescaled old coefficients
+        amax = max([abs(v) for v in coef] + [abs(lo) for (v, lo, hi, lin, i) in V] + [abs(hi) for (v, lo, hi, lin, i) in V if hi < 1e300] + [1.0])
+        steps = it + 4 + (20000 if c["warm"] else 0)     # a warm start inherits the drift of the (unreported) steps of the first training
+        if not abs(s - want) <= 64 * EPSM * (asum + 1) + 4 * EPSM * steps * amax: bad.append(("equality", "sum of coefficients %r, equality constraint demands %r" % (s, want)))
     up = [g[k] for k, (v, lo, hi, lin, i) in enumerate(V) if v < hi]
     dn = [g[k] for k, (v, lo, hi, lin, i) in enumerate(V) if v > lo]
     if eq:
